@@ -1,5 +1,5 @@
 # Per-property configuration of the check driver: parts (sub-harnesses), case counts per tier.
-HOOK_COMMITS = []
+HOOK_COMMITS = ['5d7d0e7', '69e30e4', 'f2318af', '1b17814', '0da0767', 'd46a054']
 NOT_APPLICABLE = {}
 
 CHECKS = {
@@ -173,6 +173,28 @@ CHECKS = {
         "parts": [
             {"part": "delay", "test": "TestDelay", "quick": {"checks": 20000, "shards": 2}, "thorough": {"checks": 2000000, "shards": 16}},
             {"part": "retry", "test": "TestRetry", "quick": {"checks": 320, "shards": 16, "shrinktime": "90s", "timeout": 900}, "thorough": {"checks": 4000, "shards": 16, "shrinktime": "180s", "timeout": 6000}},
+        ],
+    },
+    "C01": {
+        "pkg": "c01",
+        "engine": "sched",
+        "aux_builds": [{"pkg": "./cmd/vhook", "out": "vhook"}],
+        "technique": "schedule-owning property-based testing (rapid): cooperative scheduler over yield points between the critical sections of the kube events manager, replay oracle over the delivered history",
+        "level_text": "Random configurations, histories and interleavings (the schedule is a generated value, shrunk and replayed) of informer deliveries, snapshot reads and the unlock on the real monitor; per-object replay oracle (view + Events reproduce the changes in order) and no Event before unlock. Search over schedules, not a proof.",
+        "level_note": "Trusted: the yield points are between critical sections (lock-delimited atomic steps); watch events are delivered by the harness with reflector semantics; fake cluster as ground truth.",
+        "parts": [
+            {"part": "sched", "test": "TestSched", "quick": {"checks": 4000, "shards": 8}, "thorough": {"checks": 300000, "shards": 16, "timeout": 3000}},
+        ],
+    },
+    "C02": {
+        "pkg": "c02",
+        "engine": "sched",
+        "aux_builds": [{"pkg": "./cmd/vhook", "out": "vhook"}],
+        "technique": "schedule-owning property-based testing (rapid): every snapshot compared with a reference cache model and structural invariants; final snapshot compared with the fake cluster",
+        "level_text": "Random histories and interleavings on the real monitor; each Snapshot() result checked for structure (no duplicates, order, filter consistency) and against a reference cache model, and the quiescent snapshot against the cluster. Search, not proof.",
+        "level_note": "Trusted: as C01; reference cache model in internal/ksched.",
+        "parts": [
+            {"part": "sched", "test": "TestSched", "quick": {"checks": 4000, "shards": 8}, "thorough": {"checks": 300000, "shards": 16, "timeout": 3000}},
         ],
     },
 }
